@@ -1819,7 +1819,12 @@ Plan gen_C14(std::uint64_t seed, int tier) {
     o.max_meth = 2;
     o.max_defs = 5;
     o.slots = REF_SLOTS;
+    o.max_alias = g.r.chance(0.4) ? 3 : 1;
     basic_world(g, o, small);
+    // sometimes: also compare each policy with itself alone in a pristine
+    // process (what another policy did earlier must not matter)
+    if (g.r.chance(0.3))
+        g.p.diff = "solo";
     // each policy has its own modules over the same classes and ids
     std::vector<std::vector<Module>> mods(np);
     for (int pi = 0; pi < np; ++pi)
